@@ -103,7 +103,10 @@ def _parse_xml_string(xml_string, parser, charset=None):
         string = ''.join(chain( (chunk,), xml_string ))
 
     if charset:
-        string = string.decode(charset)
+        try:
+            string = string.decode(charset)
+        except UnicodeDecodeError as e:
+            raise Fault('Client.XMLSyntaxError', str(e))
 
     try:
         try:
